@@ -346,7 +346,7 @@ def small_scope(tier):
 
 
 def generate(rng, tier):
-    n = 420 if tier == "quick" else 12000
+    n = 700 if tier == "quick" else 12000
     cases = [gen_case(rng, tier) for _ in range(n)]
     if tier == "thorough":
         cases += small_scope(tier)
